@@ -3,13 +3,13 @@ module verif/engine
 go 1.26.8
 
 require (
+	github.com/antlr4-go/antlr/v4 v4.13.1
 	github.com/specterops/dawgs v0.0.0
 	golang.org/x/tools v0.50.0
 )
 
 require (
 	github.com/RoaringBitmap/roaring/v2 v2.19.0 // indirect
-	github.com/antlr4-go/antlr/v4 v4.13.1 // indirect
 	github.com/axiomhq/hyperloglog v0.2.6 // indirect
 	github.com/bits-and-blooms/bitset v1.24.5 // indirect
 	github.com/cespare/xxhash/v2 v2.3.0 // indirect
